@@ -226,6 +226,18 @@ Definition builtin (name : str) (args : list val) (t : gty) (s : state) : res (v
 
 Section Interp.
 Variable fns : list fn.
+(** interface name -> its methods; struct name -> the methods declared on it *)
+Variable ifaces : list (str * list str).
+Variable smethods : list (str * list str).
+
+(** x.(T): for an interface type T the dynamic type must have T's methods; for a struct type it must be T *)
+Definition assert_ok (dyn : str) (target : str) : bool :=
+  match assoc_str ifaces target with
+  | Some ms =>
+      let have := match assoc_str smethods dyn with Some l => l | None => [] end in
+      forallb (fun m => existsb (list_eqb m) have) ms
+  | None => list_eqb dyn target
+  end.
 
 Definition binop_val (op : binop) (t : gty) (a b : val) : res val :=
   match op, a, b with
@@ -323,7 +335,7 @@ Fixpoint eval (fuel : nat) (e : expr) (rho : env) (s : state) {struct fuel} : re
     | ECast x t =>
         bind (v, s1) <- eval fuel x rho s;
         match v, type_name_of t with
-        | VStruct n _, Some m => if list_eqb n m then Ok (v, s1) else Panic [97;115;115;101;114;116]%N (out s1)
+        | VStruct n _, Some m => if assert_ok n m then Ok (v, s1) else Panic [97;115;115;101;114;116]%N (out s1)
         | _, _ => Ok (v, s1)      (* assertion to a non-struct type: the value is unchanged *)
         end
     | EStructLit fs t =>
@@ -497,7 +509,7 @@ with exec (fuel : nat) (st : stmt) (rho : env) (s : state) {struct fuel} : res (
                        end
                | (t, b) :: r =>
                    match type_name_of t with
-                   | Some m => if list_eqb n m
+                   | Some m => if assert_ok n m
                                then bind (sg, rho1, s2) <- exec_block fuel b rho_b s1;
                                     Ok (match sg with SBreakSig => SNormal | x => x end, drop_to (length rho) rho1, s2)
                                else go r
@@ -517,12 +529,16 @@ End Interp.
 
 Fixpoint fns_of (f : file) : list fn :=
   match f with [] => [] | IFn x :: r => x :: fns_of r | _ :: r => fns_of r end.
+Fixpoint ifaces_of (f : file) : list (str * list str) :=
+  match f with [] => [] | IInterface n ms :: r => (n, ms) :: ifaces_of r | _ :: r => ifaces_of r end.
+Fixpoint smethods_of (f : file) : list (str * list str) :=
+  match f with [] => [] | IStruct n _ ms :: r => (n, map snd ms) :: smethods_of r | _ :: r => smethods_of r end.
 
 Inductive ending := EExit | EPanic (msg : str) | EStuck (why : N) | EUnsupported (what : N) | EFuel.
 
 (** run [main]: the bytes on standard output and how the program ended *)
 Definition run_go (f : file) (fuel : nat) : str * ending :=
-  match call (fns_of f) fuel s_main [] {| heap := []; out := [] |} with
+  match call (fns_of f) (ifaces_of f) (smethods_of f) fuel s_main [] {| heap := []; out := [] |} with
   | Ok (_, s) => (concat (rev (out s)), EExit)
   | Panic m o => (concat (rev o), EPanic m)
   | Stuck w => ([], EStuck w)
